@@ -45,6 +45,21 @@ from cfdppy.request import PutRequest
 from cfdppy.user import CfdpUserBase
 from xmc import SEED, canon, snapshot
 
+def _ubf_atom(u):
+    return f"U{u.byte_len}:{u.value}"
+
+
+for _t in [UnsignedByteField] + list(UnsignedByteField.__subclasses__()):
+    canon.ATOMIZERS[_t] = _ubf_atom
+
+
+def entity_consts(ent) -> list:
+    h = ent.h
+    out = [h.cfg, h.cfg.indication_cfg, ent.faults, h.remote_cfg_table, h.check_timer_provider]
+    out.extend(h.remote_cfg_table._remote_entity_dict.values())
+    return out
+
+
 PROTOCOL_EXC = tuple(
     v for v in vars(cexc).values() if isinstance(v, type) and issubclass(v, Exception) and v.__module__ == cexc.__name__
 )
@@ -412,7 +427,6 @@ class Entity:
         self.faults = faults
         self.role = role  # 'src' | 'dst'
         self.closed: list = []  # transaction ids this entity has finished (sorted)
-        self.seen: list = []  # transaction ids ever active here
 
     # ---- bookkeeping ---------------------------------------------------------------------------
     def active_tid(self):
@@ -422,8 +436,6 @@ class Entity:
 
     def _note(self, before, ended=()):
         now = self.active_tid()
-        if now is not None and now not in self.seen:
-            self.seen = sorted(self.seen + [now])
         if before is not None and now != before and before not in self.closed:
             self.closed = sorted(self.closed + [before])
         # a transaction may start and end within one call
